@@ -30,7 +30,9 @@ def _matches(a, value):
         test = np.asarray(value)
 
     elif np.iterable(value):
-        test = np.any([_matches(a, val) for val in value], axis=0)
+        test = np.zeros(np.shape(a), dtype=bool) # no match for an empty sequence
+        for val in value:
+            test = test | _matches(a, val)
 
     else:
         test = a == value
